@@ -122,9 +122,16 @@ def run_harness(ws, cfg, h, log_dir):
         return ob
     undet = [c for c in checks if c['status'] in ('UNDETERMINED',)]
     unreachable_cover = [c for c in checks if c['status'] in ('UNSATISFIABLE',) and 'cover' in c['id']]
-    if oom and not checks:
+    oom = oom or 'ran out of memory' in out or 'out of memory' in out.lower()
+    if oom:
+        # CBMC prints VERIFICATION:- FAILED / status ERROR after a solver OOM: undecided, never a verdict
         ob['kind'] = 'oom'
         ob['detail'] = out[-1500:]
+        return ob
+    bad_status = [c for c in checks if c['status'] not in ('SUCCESS', 'FAILURE', 'SATISFIED', 'UNSATISFIABLE', 'UNREACHABLE')]
+    if bad_status:
+        ob['kind'] = 'undetermined'
+        ob['detail'] = '%d checks with status %s\n%s' % (len(bad_status), bad_status[0]['status'], out[-1200:])
         return ob
     if failed:
         ob['status'] = 'refuted'
@@ -141,11 +148,11 @@ def run_harness(ws, cfg, h, log_dir):
         ob['kind'] = 'undetermined'
         ob['detail'] = '\n'.join(c['desc'] for c in undet[:5])
         return ob
-    if verdict == 'SUCCESSFUL' or (verdict == 'FAILED' and not failed and summary and checks):
-        # FAILED only because of ignored built-in checks
+    if verdict == 'SUCCESSFUL' or (verdict == 'FAILED' and not failed and summary and checks and n_fail_parsed > 0):
+        # FAILED only because of explicitly ignored built-in checks (e.g. CBMC's `NaN on` float checks)
         ob['status'] = 'discharged'
         ob['canary_fails_as_expected'] = None
-        ob['ignored_failures'] = len([c for c in checks if c['status'] == 'FAILURE'])
+        ob['ignored_failures'] = n_fail_parsed
         return ob
     ob['kind'] = 'tool-error'
     ob['detail'] = out[-2000:]
